@@ -44,7 +44,9 @@ Item(k, n) == [k |-> k, n |-> n]
 \*   F     a new function starts (its `var x` is declaration f = the position of the item)
 DeclKinds == {"V", "VR"}
 UseKinds == {"U", "W", "VR", "RV"}
-Items == {Item(k, "") : k \in (Openers \cup {"C", "LP", "S"}) \cap BodyKinds}
+\* (Z: a statement that holds an EMPTY array literal, `var zz: [0]i32 = [];` with a name of its own -- a plain statement for the rule;
+\* ninth round of seeded changes: the scoper's visit of `[]` left a scope layer behind)
+Items == {Item(k, "") : k \in (Openers \cup {"C", "LP", "S", "Z"}) \cap BodyKinds}
            \cup {Item(k, n) : k \in (DeclKinds \cup UseKinds) \cap BodyKinds, n \in VNames}
            \cup {Item(k, n) : k \in (GotoKinds \cup {"L"}) \cap BodyKinds, n \in LNames}
            \cup {Item("F", "x")}
